@@ -113,7 +113,7 @@ def run_client_cases(ck, lines, model_ok):
 
 def c07(ck):
     rng = random.Random(ck.seed)
-    quick = ck.tier == "quick"
+    quick = ck.quick
     model_ok, ok = prep(ck, "C07.v")
     if not ok:
         return
@@ -285,7 +285,7 @@ def loads_tuple(t):
 def c05_client(ck):
     """iteration of `more` calls against scripted reply streams"""
     rng = random.Random(ck.seed + 5)
-    quick = ck.tier == "quick"
+    quick = ck.quick
     model_ok, log = build_driver()
     ok, log = build_harness(["h_client"])
     if not ok:
@@ -342,7 +342,7 @@ def c05_client(ck):
 def c04_client(ck):
     """interleavings of oneway and normal calls on one connection against the real server"""
     rng = random.Random(ck.seed + 4)
-    quick = ck.tier == "quick"
+    quick = ck.quick
     ok, log = build_harness(["h_client"])
     if not ok:
         ck.tie_broken.append("client harness does not build")
